@@ -1,6 +1,6 @@
 """What is claimed, per property. A property appears in CLAIMS only once its checker exists and
 passes on the unchanged tree."""
-FIX_COMMITS = ["4e9e139", "5ee6583", "744f482", "eb93a13", "ceb972a", "a924d81", "2127bcd", "d45c8ce", "840f793", "c6f0e0e", "026690a", "cee72dd", "d6006a0"]
+FIX_COMMITS = ["4e9e139", "5ee6583", "744f482", "eb93a13", "ceb972a", "a924d81", "2127bcd", "d45c8ce", "840f793", "c6f0e0e", "026690a", "cee72dd", "d6006a0", "846c668", "74129bf", "7f18343"]
 
 CLAIMS = {
     "C09": dict(
@@ -149,6 +149,26 @@ CLAIMS = {
         ref="DESIGN.md §3 C08",
         note="shapes deeper than two selector levels are assumed to behave like the enumerated ones; constructor summary is re-checked against source on every run",
         technique="static analysis: abstract heap interpretation of the tree-surgery routines over enumerated shapes + CFG control-dependence on the selectors",
+    ),
+    "C01": dict(
+        text="Decides three structural necessary conditions of soundness and row consistency on provenance summaries of every concrete "
+             "expression class's evaluation (abstract interpretation with self/super calls inlined): binding threading between the "
+             "sub-expressions of one node (EP-THREAD), falsifying bindings on every result that can be flagged false for each operator that "
+             "inherits the generic negation, and the shape of every custom negation (EP-NEG), and the truth filter between conditions and "
+             "selected variables (EP-FILTER). First-order correctness of whole queries on data needs an oracle evaluator and is not decided.",
+        ref="DESIGN.md §3 C01",
+        note="assumes a child's result bindings extend the bindings it was evaluated with; rule-tree selectors are not user-negatable",
+        technique="static analysis: provenance (may/must origin) abstract interpretation of the evaluation protocol with inlining",
+    ),
+    "C02": dict(
+        text="Decides the structural conditions of 'one result per satisfying assignment' on the same summaries: every node that binds its own "
+             "id passes an existing binding through once and enumerates only when unbound (EP-BOUND); AND evaluates its right operand at "
+             "one site, under 'left true', once per left result with its bindings, and emits a false left once; the else-if form evaluates its "
+             "right operand only under 'left false'; only the union form has a second pass (EP-GATE). Counting is QC-PATH (C09). Actual "
+             "multiplicities on data are not decided.",
+        ref="DESIGN.md §3 C02",
+        note="induction hypothesis: each child result is one solution of the child",
+        technique="static analysis: guard/control-dependence and provenance facts from the evaluation-protocol abstract interpreter",
     ),
 }
 
